@@ -335,6 +335,9 @@ func vlHistory(t *testing.T, enc *json.Encoder, hist int, rng *rand.Rand, nblock
 					c = 0
 				}
 				dst := owners[rng.Intn(len(owners))].addr
+				if rng.Intn(12) == 0 {
+					dst = cipher.Address{} // the hard rules allow an output to the null address (it can never be spent)
+				}
 				txn.Out = append(txn.Out, coin.TransactionOutput{Address: dst, Coins: c, Hours: hh})
 				rem -= c
 				remH -= hh
@@ -371,6 +374,9 @@ func vlHistory(t *testing.T, enc *json.Encoder, hist int, rng *rand.Rand, nblock
 		// only inputs that can pay a coin-hour fee (the publisher applies the soft rules to its own blocks)
 		avail := coin.UxArray{}
 		for _, ux := range uxs {
+			if _, owned := keyOf[ux.Body.Address]; !owned {
+				continue
+			}
 			if hh, err := ux.CoinHours(headTime); err == nil && hh >= 2 {
 				avail = append(avail, ux)
 			}
@@ -440,7 +446,23 @@ func vlHistory(t *testing.T, enc *json.Encoder, hist int, rng *rand.Rand, nblock
 			case "uxhash":
 				rng.Read(b.Head.UxHash[:])
 			case "double-spend-in-block":
-				b = rebuild(append(append(coin.Transactions{}, blk.Body.Transactions...), mkTxn(ins1[:1], 0, false, false)))
+				// the second spend shares any one input (first or last position), alone or together with a fresh
+				// input, and is placed before or after the block's own transactions
+				shared := ins1[rng.Intn(len(ins1))]
+				dsIns := []coin.UxOut{shared}
+				if len(ins2) == 0 && len(rest) > 0 && rng.Intn(2) == 0 {
+					if rng.Intn(2) == 0 {
+						dsIns = []coin.UxOut{rest[0], shared}
+					} else {
+						dsIns = []coin.UxOut{shared, rest[0]}
+					}
+				}
+				ds := mkTxn(dsIns, 0, false, false)
+				if rng.Intn(2) == 0 {
+					b = rebuild(append(append(coin.Transactions{}, blk.Body.Transactions...), ds))
+				} else {
+					b = rebuild(append(coin.Transactions{ds}, blk.Body.Transactions...))
+				}
 			case "replayed-spend":
 				if len(spent) == 0 {
 					skip = true
